@@ -50,7 +50,9 @@ func (f *Frame) callAsserts(cur *blockCur, in ssa.Instruction, cc *ssa.CallCommo
 		for i, a := range args {
 			env.names[fmt.Sprintf("arg%d", i)] = a
 		}
+		f.relaxedLocals = true // call-site assertions may name variables declared in blocks that do not dominate the call
 		t, err := env.evalBool(cl.Expr)
+		f.relaxedLocals = false
 		if err != nil {
 			panic(unsupportedErr{fmt.Sprintf("assert at %s %q: %v", cl.At, cl.Text, err)})
 		}
